@@ -41,6 +41,8 @@ package redisemu
 //@ ensures internal [C12] reply.missing: !exists ==> output.data == respInt(0)
 //@ ensures internal [C20] other.emulator: client != nil && client.dss != ctx.cs.dss ==> output.data == respInt(0) && gUnblockCalls == old(gUnblockCalls)
 //@ ensures internal [C12] reply.blocked: exists ==> output.data == respInt(ite(old(client.blocked) == CS_CAPTURED, 1, 0))
+// a registered client of this emulator is served whatever database either connection has selected
+//@ ensures internal [C12] same.emulator.served: old(haskey(clients, id)) && client != nil && client.dss == ctx.cs.dss ==> output.data == respInt(ite(old(client.blocked) == CS_CAPTURED, 1, 0))
 
 // the blocking worker: try, register, try again, only then wait; never register or wait under MULTI/EXEC
 //@ ghost gWaitRegistered bool
@@ -98,10 +100,20 @@ package redisemu
 //@ ensures [C11,C12] retry.after.register: gWaitRegistered ==> gTries >= 2
 //@ ensures [C12] immediate: !gWaitRegistered ==> gTries == 1
 
+// a command that stops waiting leaves every queue under the store lock (verified on top of
+// waitTable.disposeWakeSignal) and gives the lock back
 //@ func dataStore.leaveListBlock
-//@ trusted takes the store lock, removes the signal from every queue and closes its channel
-//@ requires ds != nil
-//@ modifies signalListTuple objectWaitList.queueHead objectWaitList.queueTail wakeSignal.objectsHead wakeSignal.objectsTail map
+//@ prop C11 C12 C08 C16
+//@ guards on
+//@ safetyprop none
+//@ requires ds != nil && ds.waitingClients != nil && ws != nil
+//@ requires [C08,C16] unlocked: !held
+//@ requires free wf.queues: forall q *objectWaitList :: queueWF(q)
+//@ requires free wf.signals: forall w *wakeSignal :: signalWF(w)
+//@ requires free wf.table: forall k string :: haskey(ds.waitingClients.table, k) ==> ds.waitingClients.table[k] != nil
+//@ requires free table: ds.waitingClients.table != nil
+//@ modifies signalListTuple objectWaitList.queueHead objectWaitList.queueTail wakeSignal.objectsHead wakeSignal.objectsTail wakeSignal.raisedBy map ghost.gWakes ghost.gTableUnblocks ghost.gTableUnblockKey ghost.gTableUnblockN ghost.gDrainLooked ghost.gDrainTook ghost.held
+//@ ensures [C08,C16,C13] released: !held
 
 //@ func time.Until
 //@ trusted time left until a deadline; the ghost records that the value was computed just now
